@@ -23,7 +23,8 @@
 (*   FinishAck         idRing.Discard(pendingDiscard)                        *)
 (*   Aggregate         sendAck: ackByTarget[t] := a; min over PRESENT        *)
 (*                     entries; monotone guard; clamp; Send to the source    *)
-(*   BreakTgt/SenderStop/ReopenTgt/ReplayWm, BreakSrc/SrcStop/ReopenSrc     *)
+(*   BreakTgt/SenderClose/SenderGone/ReopenTgt/ReplayWm,                    *)
+(*   BreakSrc/SrcStop/ReopenSrc                                             *)
 (*                     stream faults (C04).  A break is noticed by the proxy *)
 (*                     only when a goroutine next touches the stream, so the *)
 (*                     shutdown of an incarnation is a separate internal     *)
@@ -62,7 +63,7 @@ VARIABLES
   \* --- receiver R[s]
   rpc, pending, bcastTo, lastHigh, lastWm, ackByTarget, lastSentMin, ackChan,
   \* --- sender S[t]
-  up, chan, nextPid, ring, prevAck, spc, fwd, fallback, discardN, tackWire, inflight, replayTo,
+  up, chan, nextPid, ring, prevAck, spc, fwd, fallback, discardN, tackWire, inflight, replayTo, lastSent,
   \* --- target cluster (ExecutableTaskTracker + StreamReceiver)
   trkHigh, trkQ,
   \* --- history (hidden by VIEW)
@@ -77,7 +78,7 @@ VARIABLES
 
 srcVars == <<srcNext, wmCount, srcAck, srcUp>>
 rcvVars == <<rpc, pending, bcastTo, lastHigh, lastWm, ackByTarget, lastSentMin, ackChan>>
-sndVars == <<up, chan, nextPid, ring, prevAck, spc, fwd, fallback, discardN, tackWire, inflight, replayTo>>
+sndVars == <<up, chan, nextPid, ring, prevAck, spc, fwd, fallback, discardN, tackWire, inflight, replayTo, lastSent>>
 tgtVars == <<trkHigh, trkQ>>
 histVars == <<pidMap, conf, delivered, received, lastAck, faults, lost, viol>>
 vars == <<route, srcVars, rcvVars, sndVars, tgtVars, histVars>>
@@ -96,7 +97,7 @@ InitWith(rt) ==
   /\ prevAck = [t \in Tgt |-> [s \in Src |-> Absent]]
   /\ spc = [t \in Tgt |-> "idle"] /\ fwd = [t \in Tgt |-> [s \in Src |-> Absent]]
   /\ fallback = [t \in Tgt |-> FALSE] /\ discardN = [t \in Tgt |-> 0] /\ tackWire = [t \in Tgt |-> <<>>]
-  /\ inflight = [t \in Tgt |-> NoFlight] /\ replayTo = [t \in Tgt |-> {}]
+  /\ inflight = [t \in Tgt |-> NoFlight] /\ replayTo = [t \in Tgt |-> {}] /\ lastSent = [t \in Tgt |-> 0]
   /\ trkHigh = [t \in Tgt |-> 0] /\ trkQ = [t \in Tgt |-> <<>>]
   /\ pidMap = [t \in Tgt |-> <<>>] /\ conf = {} /\ delivered = {}
   /\ received = [s \in Src |-> {}] /\ lastAck = [s \in Src |-> 0] /\ faults = 0
@@ -124,9 +125,13 @@ RecvTasks(s, k) ==
 
 \* a watermark-only batch: recorded as lastWatermark and broadcast (non-blocking) to every registered channel
 WmMsg(s, high) == [src |-> s, ids |-> <<>>, high |-> high]
-Reg(t) == up[t] # "down"        \* S[t]'s channel is registered (also while its stream is already broken)
-Live(t) == up[t] = "up"         \* the target cluster is connected
-Offer(t, m) == IF Reg(t) /\ Len(chan[t]) < ChanCap THEN Append(chan[t], m) ELSE chan[t]
+\* life cycle of S[t]:  "up" -(stream breaks)-> "closing" -(Run notices: close(sendMsgChan))-> "closed"
+\*                     -(UnregisterShard, RemoveRemoteSendChan)-> "down" -(new stream)-> "up"
+Reg(t) == up[t] # "down"                  \* S[t]'s channel is in the registry (possibly already closed)
+Open(t) == up[t] \in {"up", "closing"}     \* ... and not yet closed: sends on it succeed, S[t]'s goroutines run
+Live(t) == up[t] = "up"                   \* the target cluster is connected
+\* non-blocking send: dropped when the channel is full, closed (recovered panic) or not registered
+Offer(t, m) == IF Open(t) /\ Len(chan[t]) < ChanCap THEN Append(chan[t], m) ELSE chan[t]
 RecvWm(s) ==
   /\ srcUp[s] = "up" /\ rpc[s] = "idle" /\ wmCount[s] < MaxWm /\ srcNext[s] > 1
   /\ LET high == srcNext[s]
@@ -143,22 +148,22 @@ Bcast(s, t) ==
   /\ bcastTo' = [bcastTo EXCEPT ![s] = @ \ {t}]
   /\ rpc' = [rpc EXCEPT ![s] = IF bcastTo'[s] = {} THEN "idle" ELSE "bcast"]
   /\ UNCHANGED <<route, srcVars, pending, lastHigh, lastWm, ackByTarget, lastSentMin, ackChan,
-                 up, nextPid, ring, prevAck, spc, fwd, fallback, discardN, tackWire, inflight, replayTo,
+                 up, nextPid, ring, prevAck, spc, fwd, fallback, discardN, tackWire, inflight, replayTo, lastSent,
                  tgtVars, histVars>>
 
 \* hand-off of target t's part of the current batch (blocking send; retried until the channel exists)
 Deliver(s, t) ==
-  /\ rpc[s] = "deliver" /\ pending[s][t] # <<>> /\ Reg(t) /\ Len(chan[t]) < ChanCap
+  /\ rpc[s] = "deliver" /\ pending[s][t] # <<>> /\ Open(t) /\ Len(chan[t]) < ChanCap
   /\ chan' = [chan EXCEPT ![t] = Append(@, [src |-> s, ids |-> pending[s][t], high |-> 0])]
   /\ pending' = [pending EXCEPT ![s][t] = <<>>]
   /\ rpc' = [rpc EXCEPT ![s] = IF \A u \in Tgt : pending'[s][u] = <<>> THEN "idle" ELSE "deliver"]
   /\ UNCHANGED <<route, srcVars, bcastTo, lastHigh, lastWm, ackByTarget, lastSentMin, ackChan,
-                 up, nextPid, ring, prevAck, spc, fwd, fallback, discardN, tackWire, inflight, replayTo,
+                 up, nextPid, ring, prevAck, spc, fwd, fallback, discardN, tackWire, inflight, replayTo, lastSent,
                  tgtVars, histVars>>
 
 (* ---------------- sender S[t] -------------------------------------------- *)
 SenderDequeue(t) ==
-  /\ Reg(t) /\ chan[t] # <<>> /\ inflight[t] = NoFlight
+  /\ Open(t) /\ chan[t] # <<>> /\ inflight[t] = NoFlight
   /\ LET m == Head(chan[t])
          n == Len(m.ids)
          ents == IF n > 0
@@ -171,7 +176,7 @@ SenderDequeue(t) ==
         /\ ring' = [ring EXCEPT ![t] = @ \o ents]
         /\ pidMap' = [pidMap EXCEPT ![t] = @ \o ents]
         /\ inflight' = [inflight EXCEPT ![t] = [n |-> n, high |-> high]]
-  /\ UNCHANGED <<route, srcVars, rcvVars, up, prevAck, spc, fwd, fallback, discardN, tackWire, replayTo,
+  /\ UNCHANGED <<route, srcVars, rcvVars, up, prevAck, spc, fwd, fallback, discardN, tackWire, replayTo, lastSent,
                  tgtVars, conf, delivered, received, lastAck, faults, lost, viol>>
 
 \* Send returned: the target's tracker applies TrackTasks(high, tasks)
@@ -195,6 +200,7 @@ SenderSend(t) ==
              \cup (IF faults = 0 /\ \E d \in new : \E e \in delivered : e.s = d.s /\ e.t = d.t /\ e.id >= d.id
                    THEN {"disorder"} ELSE {})
   /\ inflight' = [inflight EXCEPT ![t] = NoFlight]
+  /\ lastSent' = [lastSent EXCEPT ![t] = inflight[t].high]
   /\ UNCHANGED <<route, srcVars, rcvVars, up, chan, nextPid, ring, prevAck, spc, fwd, fallback, discardN,
                  tackWire, replayTo, pidMap, conf, received, lastAck, faults, lost>>
 
@@ -211,10 +217,20 @@ TgtAck(t) ==
      /\ conf' = conf \cup {<<pidMap[t][i].src, pidMap[t][i].orig>> :
                              i \in {j \in 1..Len(pidMap[t]) : pidMap[t][j].task /\ pidMap[t][j].pid < w}}
   /\ UNCHANGED <<route, srcVars, rcvVars, up, chan, nextPid, ring, prevAck, spc, fwd, fallback, discardN,
-                 inflight, replayTo, tgtVars, pidMap, delivered, received, lastAck, faults, lost, viol>>
+                 inflight, replayTo, lastSent, tgtVars, pidMap, delivered, received, lastAck, faults, lost, viol>>
+
+\* keep-alives after 1 s without traffic (timers): the sender repeats its last exclusive high watermark with no
+\* tasks and no ring entry; the receiver repeats its last aggregated ack.  With correct code both change nothing.
+KeepAliveMsg(t) ==
+  /\ Live(t) /\ inflight[t] = NoFlight /\ lastSent[t] > 0
+  /\ trkHigh' = [trkHigh EXCEPT ![t] = IF lastSent[t] > @ THEN lastSent[t] ELSE @]
+  /\ UNCHANGED <<route, srcVars, rcvVars, sndVars, trkQ, histVars>>
+KeepAliveAck(s) ==
+  /\ srcUp[s] = "up" /\ lastAck[s] > 0
+  /\ UNCHANGED vars
 
 SenderRecvAck(t) ==
-  /\ Reg(t) /\ spc[t] = "idle" /\ tackWire[t] # <<>>
+  /\ Open(t) /\ spc[t] = "idle" /\ tackWire[t] # <<>>
   /\ LET w == Head(tackWire[t])
          cov == SelectSeq(ring[t], LAMBDA e : e.pid <= w)
          agg == [s \in Src |-> LET vs == {cov[i].orig : i \in {j \in 1..Len(cov) : cov[j].src = s}} IN
@@ -225,22 +241,22 @@ SenderRecvAck(t) ==
         /\ fallback' = [fallback EXCEPT ![t] = none]
         /\ discardN' = [discardN EXCEPT ![t] = Len(cov)]
         /\ spc' = [spc EXCEPT ![t] = "fwd"]
-  /\ UNCHANGED <<route, srcVars, rcvVars, up, chan, nextPid, ring, prevAck, inflight, replayTo, tgtVars, histVars>>
+  /\ UNCHANGED <<route, srcVars, rcvVars, up, chan, nextPid, ring, prevAck, inflight, replayTo, lastSent, tgtVars, histVars>>
 
 \* blocking hand-off of one per-source ack; retried while the source's receiver is not registered
 ForwardAck(t, s) ==
-  /\ Reg(t) /\ spc[t] = "fwd" /\ fwd[t][s] # Absent /\ srcUp[s] # "down" /\ Len(ackChan[s]) < AckCap
+  /\ Open(t) /\ spc[t] = "fwd" /\ fwd[t][s] # Absent /\ srcUp[s] # "down" /\ Len(ackChan[s]) < AckCap
   /\ ackChan' = [ackChan EXCEPT ![s] = Append(@, [tgt |-> t, a |-> fwd[t][s]])]
   /\ prevAck' = IF fallback[t] THEN prevAck ELSE [prevAck EXCEPT ![t][s] = fwd[t][s]]
   /\ fwd' = [fwd EXCEPT ![t][s] = Absent]
   /\ UNCHANGED <<route, srcVars, rpc, pending, bcastTo, lastHigh, lastWm, ackByTarget, lastSentMin,
-                 up, chan, nextPid, ring, spc, fallback, discardN, tackWire, inflight, replayTo, tgtVars, histVars>>
+                 up, chan, nextPid, ring, spc, fallback, discardN, tackWire, inflight, replayTo, lastSent, tgtVars, histVars>>
 
 FinishAck(t) ==
-  /\ Reg(t) /\ spc[t] = "fwd" /\ \A s \in Src : fwd[t][s] = Absent
+  /\ Open(t) /\ spc[t] = "fwd" /\ \A s \in Src : fwd[t][s] = Absent
   /\ ring' = [ring EXCEPT ![t] = SubSeq(@, discardN[t] + 1, Len(@))]
   /\ spc' = [spc EXCEPT ![t] = "idle"] /\ discardN' = [discardN EXCEPT ![t] = 0]
-  /\ UNCHANGED <<route, srcVars, rcvVars, up, chan, nextPid, prevAck, fwd, fallback, tackWire, inflight, replayTo,
+  /\ UNCHANGED <<route, srcVars, rcvVars, up, chan, nextPid, prevAck, fwd, fallback, tackWire, inflight, replayTo, lastSent,
                  tgtVars, histVars>>
 
 (* ---------------- receiver R[s]: aggregate and acknowledge --------------- *)
@@ -275,13 +291,13 @@ BreakTgt(t) ==
   /\ up' = [up EXCEPT ![t] = "closing"]
   /\ tackWire' = tackWire      \* acks already on the wire may still be read by recvAck
   /\ UNCHANGED <<route, srcVars, rcvVars, chan, nextPid, ring, prevAck, spc, fwd, fallback, discardN, inflight,
-                 replayTo, tgtVars, pidMap, conf, delivered, received, lastAck, lost, viol>>
+                 replayTo, lastSent, tgtVars, pidMap, conf, delivered, received, lastAck, lost, viol>>
 \* ... S[t] shuts down when one of its goroutines touches the stream: Send fails (a message is in flight) or
 \* Recv fails (recvAck is idle).  Queue, in-flight message, ring, prevAck and the target-side tracker of that
 \* incarnation are gone; close(sendMsgChan), UnregisterShard, RemoveRemoteSendChan.
-SenderStop(t) ==
+SenderClose(t) ==
   /\ up[t] = "closing" /\ (inflight[t] # NoFlight \/ spc[t] = "idle")
-  /\ up' = [up EXCEPT ![t] = "down"]
+  /\ up' = [up EXCEPT ![t] = "closed"] /\ lastSent' = [lastSent EXCEPT ![t] = 0]
   /\ chan' = [chan EXCEPT ![t] = <<>>] /\ nextPid' = [nextPid EXCEPT ![t] = 0]
   /\ ring' = [ring EXCEPT ![t] = <<>>] /\ prevAck' = [prevAck EXCEPT ![t] = [s \in Src |-> Absent]]
   /\ spc' = [spc EXCEPT ![t] = "idle"] /\ fwd' = [fwd EXCEPT ![t] = [s \in Src |-> Absent]]
@@ -295,6 +311,13 @@ SenderStop(t) ==
                            i \in {j \in 1..Len(pidMap[t]) : pidMap[t][j].task /\ <<pidMap[t][j].src, pidMap[t][j].orig>> \notin conf}}
                   \cup UNION {{<<chan[t][i].src, id>> : id \in SeqToSet(chan[t][i].ids)} : i \in 1..Len(chan[t])}
   /\ UNCHANGED <<route, srcVars, rcvVars, conf, delivered, received, lastAck, faults, viol>>
+\* ... and only afterwards (deferred) UnregisterShard and RemoveRemoteSendChan: until then the closed channel is
+\* still found by look-ups, and every send on it fails (recovered panic) and is retried or dropped
+SenderGone(t) ==
+  /\ up[t] = "closed"
+  /\ up' = [up EXCEPT ![t] = "down"]
+  /\ UNCHANGED <<route, srcVars, rcvVars, chan, nextPid, ring, prevAck, spc, fwd, fallback, discardN, tackWire,
+                 inflight, replayTo, lastSent, tgtVars, histVars>>
 
 \* SetRemoteSendChan: the new channel is visible (blocked hand-offs may now succeed) ...
 ReopenTgt(t) ==
@@ -302,14 +325,14 @@ ReopenTgt(t) ==
   /\ up' = [up EXCEPT ![t] = "up"]
   /\ replayTo' = [replayTo EXCEPT ![t] = {s \in Src : srcUp[s] # "down"}]
   /\ UNCHANGED <<route, srcVars, rcvVars, chan, nextPid, ring, prevAck, spc, fwd, fallback, discardN, tackWire,
-                 inflight, tgtVars, histVars>>
+                 inflight, lastSent, tgtVars, histVars>>
 \* ... and only then RegisterShard -> notifyReceiversOfNewShard -> sendPendingWatermarkToShard (non-blocking)
 ReplayWm(t, s) ==
   /\ Reg(t) /\ s \in replayTo[t]
   /\ replayTo' = [replayTo EXCEPT ![t] = @ \ {s}]
   /\ chan' = [chan EXCEPT ![t] = IF lastWm[s] > 0 THEN Offer(t, WmMsg(s, lastWm[s])) ELSE @]
   /\ UNCHANGED <<route, srcVars, rcvVars, up, nextPid, ring, prevAck, spc, fwd, fallback, discardN, tackWire,
-                 inflight, tgtVars, histVars>>
+                 inflight, lastSent, tgtVars, histVars>>
 
 \* the streams of source shard s break (boundary): no more batches, acknowledgements can no longer be sent
 BreakSrc(s) ==
@@ -332,7 +355,7 @@ SrcStop(s) ==
   \* still outstanding anywhere (queued, in flight, unacknowledged) loses the protection of its target's level
   /\ lost' = lost \cup {<<s, id>> : id \in {x \in received[s] : ~Confirmed(s, x)}}
   /\ UNCHANGED <<route, srcNext, wmCount, srcAck, up, chan, nextPid, ring, prevAck, spc, fwd, fallback, discardN,
-                 tackWire, inflight, tgtVars, pidMap, conf, delivered, received, faults, viol>>
+                 tackWire, inflight, lastSent, tgtVars, pidMap, conf, delivered, received, faults, viol>>
 \* a new incarnation; the source resumes from the level it was last acknowledged
 ReopenSrc(s) ==
   /\ srcUp[s] = "down"
@@ -342,7 +365,7 @@ ReopenSrc(s) ==
 
 Internal ==
   \/ \E s \in Src, t \in Tgt : Deliver(s, t) \/ Bcast(s, t) \/ ForwardAck(t, s) \/ ReplayWm(t, s)
-  \/ \E t \in Tgt : SenderDequeue(t) \/ SenderRecvAck(t) \/ FinishAck(t) \/ SenderStop(t)
+  \/ \E t \in Tgt : SenderDequeue(t) \/ SenderRecvAck(t) \/ FinishAck(t) \/ SenderClose(t) \/ SenderGone(t)
   \/ \E s \in Src : Aggregate(s) \/ SrcStop(s)
 Env ==
   \/ \E s \in Src : (\E k \in 1..MaxBatch : RecvTasks(s, k)) \/ RecvWm(s)
@@ -350,7 +373,8 @@ Env ==
 Fault ==
   \/ \E t \in Tgt : BreakTgt(t) \/ ReopenTgt(t)
   \/ \E s \in Src : BreakSrc(s) \/ ReopenSrc(s)
-Next == Internal \/ Env \/ Fault
+Timer == (\E t \in Tgt : KeepAliveMsg(t)) \/ (\E s \in Src : KeepAliveAck(s))
+Next == Internal \/ Env \/ Fault \/ Timer
 Spec == Init /\ [][Next]_vars
 
 (* ---------------- properties ---------------------------------------------- *)
